@@ -47,6 +47,10 @@ def discharge(ob):
             ob.status, ob.backend = "proved", "cvc5"
         elif r == "sat":
             ob.status, ob.backend = "refuted", "cvc5"
+        else:
+            # neither solver answered inside its budget: one more attempt with three times the budget, so that a
+            # machine busy with other work does not turn a millisecond query into `undecided`
+            vcgen.solve(ob, 3 * Z3_TIMEOUT)
     return ob.status
 
 
